@@ -519,8 +519,8 @@ func runC11Isolation(c C11Case, o *run.Obs, w *core.World, roots []*core.SavedRo
 	if !finishedB {
 		select {
 		case errB = <-doneB:
-		case <-time.After(20 * time.Second):
-			return fmt.Errorf("harness: tree B did not finish within 20 s")
+		case <-time.After(120 * time.Second):
+			return fmt.Errorf("harness: tree B did not finish within 120 s")
 		}
 	}
 	<-doneA // A may fail (its own request ended) or succeed; either is its own business
